@@ -17,7 +17,7 @@ use crate::verif_spec as spec;
 // @funcs Qcow2Header::format_qcow2 (header construction)
 // @stub alloc::fmt::format -> String::new()
 #[kani::proof]
-#[kani::stub(alloc::fmt::format, fmt_stub)]
+#[kani::stub(std::fmt::format, fmt_stub)]
 fn c09_format_header() {
     let env = KEnv::new(mk_info(16, 4, 1 << 30, 9, Some((9, 1024)), Some((9, 1024)), false, false, false));
     let cb: u32 = kani::any();
